@@ -188,7 +188,15 @@ func (d *Decoder) readTypedMap() (interface{}, error) {
 			return nil, err
 		}
 		if mType.Kind() == reflect.Map {
-			mValue.SetMapIndex(valueOrZero(EnsureRawValue(key), mType.Key()), valueOrZero(EnsureRawValue(value), mType.Elem()))
+			k, err := convertValue(EnsureRawValue(key), mType.Key())
+			if err != nil {
+				return nil, err
+			}
+			v, err := convertValue(EnsureRawValue(value), mType.Elem())
+			if err != nil {
+				return nil, err
+			}
+			mValue.SetMapIndex(k, v)
 		} else {
 			fieldName, ok := key.(string)
 			if !ok {
@@ -273,7 +281,15 @@ func (d *Decoder) readMap(dest reflect.Value) error {
 		if err != nil {
 			return err
 		}
-		mPtrValue.Elem().SetMapIndex(valueOrZero(EnsureRawValue(key), mapTyp.Key()), valueOrZero(EnsureRawValue(vl), mapTyp.Elem()))
+		k, err := convertValue(EnsureRawValue(key), mapTyp.Key())
+		if err != nil {
+			return newCodecError("readMap", err)
+		}
+		v, err := convertValue(EnsureRawValue(vl), mapTyp.Elem())
+		if err != nil {
+			return newCodecError("readMap", err)
+		}
+		mPtrValue.Elem().SetMapIndex(k, v)
 	}
 	SetValue(dest, mPtrValue)
 	return nil
